@@ -241,7 +241,11 @@ def consumed_contract(ctx, R2, dv):
                          sample={"rule": R2, "path": kind + "/delimited", "class": cls, "line": r.line})
             continue
         if kind == "no-marker":
-            ok = (cls == "ALL-BUT-TAIL" and kept_tail_ok(dv, r, marker, marker_expr)) or rfind_tail_ok(dv, r, marker)
+            kt = kept_tail_ok(dv, r, marker, marker_expr) if cls == "ALL-BUT-TAIL" else False
+            ok = kt is True or rfind_tail_ok(dv, r, marker)
+            if not ok and kt is None:
+                raise AnalysisError(f"decode: how the kept tail `{short(r.ast.value.elts[1])}` of the no-marker path is computed has a form this rule "
+                                    "does not know (a descending scan over the marker's proper prefixes is expected)")
             what = ("with no complete marker in the buffer the decoder must keep the longest buffer suffix that is a proper prefix of the marker; "
                     f"it reports `{short(r.ast.value.elts[1])}`: a read ending inside the marker loses the head of the next frame")
         else:
@@ -319,48 +323,108 @@ def rfind_tail_ok(dv, r, marker):
 
 
 def kept_tail_ok(dv, r, marker, marker_expr):
-    """`len(buf) - keep` with keep = longest n in 1..len(marker)-1 such that buf ends with marker[:n].
-    marker is the folded literal, or None when the marker is computed at run time (then the bound must be len(<marker expr>) - 1)."""
+    """`len(buf) - keep` with keep = the longest n in 1..len(marker)-1 such that buf ends with marker[:n].
+    marker is the folded literal, or None when the marker is computed at run time (then the bound must be len(<marker expr>) - 1).
+
+    True / False are verdicts; None says the computation of `keep` has a form this rule does not know (the caller reports an analysis error).
+    For the known form - `for n in range(min(len(buf), H), lo, step): if buf.endswith(M[:n]): keep = n [; break]`, keep initialised to 0 - the
+    verdict is computed from the parameters (H, lo, step, break or not, the borders of the literal M), not matched against one spelling of them:
+    for every possible true answer k the candidates n that match are those with M[:n] a suffix of M[:k]; the loop's result must be k."""
     e = r.ast.value.elts[1]
     if not (isinstance(e, ast.BinOp) and isinstance(e.right, ast.Name)):
-        return False
+        return None
     keep = e.right.id
     fn = dv.fn
+    defs = [v for v in derivation(fn, keep, 0).get(keep, [])]
+    if defs and all(isinstance(v, ast.Constant) and v.value == 0 for v in defs):
+        return False  # nothing is ever kept
     loops = [n for n in walk_no_nested(fn) if isinstance(n, ast.For) and any(
         isinstance(x, ast.Assign) and isinstance(x.targets[0], ast.Name) and x.targets[0].id == keep for x in walk_no_nested(n))]
     if len(loops) != 1:
-        return False
+        return None
     lp = loops[0]
     it = lp.iter
-    if not (isinstance(it, ast.Call) and unparse(it.func) == "range" and len(it.args) == 3):
-        return False
-    hi, lo, step = it.args
-    if unparse(step) != "-1" or unparse(lo) != "0":
-        return False
-    hi_t = unparse(hi)
-    if marker is not None:
-        # min(len(buf), N) in either order, N any constant expression (5, len(b"8=FIX.") - 1, ...) not below len(marker) - 1
-        bound_ok = False
-        if isinstance(hi, ast.Call) and unparse(hi.func) == "min" and len(hi.args) == 2 and not hi.keywords:
-            for a, b in ((hi.args[0], hi.args[1]), (hi.args[1], hi.args[0])):
-                n_ = _const_int(b)
-                if unparse(a) == f"len({dv.buf})" and n_ is not None and n_ >= len(marker) - 1:
-                    bound_ok = True
-        lits = [repr(marker)]
+    if not (isinstance(it, ast.Call) and unparse(it.func) == "range" and 1 <= len(it.args) <= 3 and not it.keywords) or lp.orelse:
+        return None
+    if len(it.args) == 1:
+        hi, lo, step = ast.Constant(0), it.args[0], ast.Constant(1)
     else:
+        hi, lo, step = it.args[0], it.args[1], (it.args[2] if len(it.args) == 3 else ast.Constant(1))
+    step_v = _const_int(step)
+    if step_v is None or step_v == 0:
+        return None
+    var = unparse(lp.target)
+    # the body: one `if <buf ends with M[:n]>: keep = n [; break]`
+    if not (len(lp.body) == 1 and isinstance(lp.body[0], ast.If) and not lp.body[0].orelse):
+        return None
+    iff = lp.body[0]
+    has_break = False
+    for st in iff.body:
+        if isinstance(st, ast.Break):
+            has_break = True
+        elif isinstance(st, ast.Continue) and st is iff.body[-1]:
+            pass  # the end of the body anyway
+        elif not (isinstance(st, ast.Assign) and unparse(st) == f"{keep} = {var}"):
+            return None
+    if not any(isinstance(st, ast.Assign) for st in iff.body):
+        return None
+    if not any(isinstance(v, ast.Constant) and v.value == 0 for v in defs):
+        return None
+    hi_t = unparse(hi)
+    tst = unparse(iff.test)
+    if marker is None:
         # a run-time marker: the bound has to follow its length, a constant cannot be right for every marker
         want = f"len({marker_expr}) - 1"
-        bound_ok = hi_t in (f"min(len({dv.buf}), {want})", f"min({want}, len({dv.buf}))")
-        lits = [marker_expr]
-    if not bound_ok:
-        return False
-    var = unparse(lp.target)
-    body_txt = " ".join(unparse(s) for s in lp.body)
-    cond_ok = any((f"{dv.buf}.endswith({lit}[:{var}])" in body_txt) or (f"{lit}[:{var}] == {dv.buf}[-{var}:]" in body_txt)
-                  or (f"{dv.buf}[-{var}:] == {lit}[:{var}]" in body_txt) for lit in lits)
-    has_break = any(isinstance(x, ast.Break) for s in lp.body for x in ast.walk(s))
-    inits = [v for v in derivation(fn, keep, 0).get(keep, []) if isinstance(v, ast.Constant)]
-    return cond_ok and has_break and any(v.value == 0 for v in inits)
+        if tst not in (f"{dv.buf}.endswith({marker_expr}[:{var}])", f"{marker_expr}[:{var}] == {dv.buf}[-{var}:]", f"{dv.buf}[-{var}:] == {marker_expr}[:{var}]"):
+            return None
+        return hi_t in (f"min(len({dv.buf}), {want})", f"min({want}, len({dv.buf}))") and step_v == -1 and _const_int(lo) == 0 and has_break
+    lit = repr(marker)
+    if tst not in (f"{dv.buf}.endswith({lit}[:{var}])", f"{lit}[:{var}] == {dv.buf}[-{var}:]", f"{dv.buf}[-{var}:] == {lit}[:{var}]"):
+        return None
+    slice_form = "endswith" not in tst  # buf[-n:] == M[:n]: for n == 0 it compares the whole buffer with b"" (false on a non-empty buffer)
+    # the bounds: constant expressions in which min(len(buf), H) (either order) stands for H - candidates longer than the buffer never match
+    def bound(x):
+        if isinstance(x, ast.Call) and unparse(x.func) == "min" and len(x.args) == 2 and not x.keywords:
+            for a, b in ((x.args[0], x.args[1]), (x.args[1], x.args[0])):
+                if unparse(a) == f"len({dv.buf})" and _const_int(b) is not None:
+                    return _const_int(b)
+            return None
+        if isinstance(x, ast.BinOp) and isinstance(x.op, (ast.Add, ast.Sub)):
+            l_, r_ = bound(x.left), bound(x.right)
+            if l_ is None or r_ is None:
+                return None
+            return l_ + r_ if isinstance(x.op, ast.Add) else l_ - r_
+        return _const_int(x)
+    H, lo_v = bound(hi), bound(lo)
+    if H is None or lo_v is None:
+        return None
+    if slice_form and not any("min(" in unparse(x) for x in (hi, lo)):
+        return None  # buf[-n:] with n beyond the buffer is the whole buffer: only the endswith form is indifferent to the bound
+    L = len(marker)
+    cand = list(range(H, lo_v, step_v))
+    for k in range(0, L):
+        # the buffer's longest suffix that is a proper prefix of the marker has length k
+        def matches(n):
+            if n == 0:
+                return not slice_form
+            m = marker[:n]  # Python's own slicing rule for negative / oversized n
+            if len(m) >= L:
+                return False  # the whole marker at the end: excluded, the search would have found it
+            if n < 0 and slice_form:
+                return None
+            return len(m) <= k and marker[:k].endswith(m)
+        res = 0
+        for n in cand:
+            mt = matches(n)
+            if mt is None:
+                return None
+            if mt:
+                res = n
+                if has_break:
+                    break
+        if res != k:
+            return False
+    return True
 
 
 def _const_int(e):
